@@ -59,6 +59,9 @@ def queries(tier, seed=0):
                 for pos in (0, 2):
                     qs.append(dict(shape=sh.to_json(), kind=kind, name=nm, os=None, target=[1, 0],
                                    b_variant=var, b_pos=pos, param=True))
+    for pos in (0, 2):
+        qs.append(dict(shape=shapes[0].to_json(), kind='exploit', name='s1', os=None, target=[1, 0],
+                       b_variant='content', b_pos=pos, twin=True))
     for name in ('tiny-gen', 'small-gen'):
         qs.append(dict(kind='bench_params', name=name, no_reach=True))
     return qs
@@ -100,6 +103,11 @@ def make_b(w, q):
                                 u.EXPLOIT_PROB: 1.0, u.EXPLOIT_COST: 1, u.EXPLOIT_ACCESS: 2}
     if q['kind'] == 'exploit' and var == 'content':
         exploits = {'eb0': exploits['eb0']}          # same action count as A: same cache keys
+    if q.get('twin'):
+        # an exploit with A's name, service and target whose cost / probability agree with A's to
+        # two decimals only
+        exploits = {'e_x': {u.EXPLOIT_SERVICE: q['name'], u.EXPLOIT_OS: None, u.EXPLOIT_PROB: 0.33,
+                            u.EXPLOIT_COST: 0.1, u.EXPLOIT_ACCESS: 2}}
     wb = scen.build_world(scen.ConcSource(model), shape, name_tag=tag, exploits=exploits)
     return wb.scenario
 
@@ -183,7 +191,12 @@ def run(src, q):
     costs = dyn.symbolic_scan_costs(src)
     w = scen.build_world(src, shape, scan_costs=costs)
     sc_cost = costs[q['kind'][:-5]] if q['kind'].endswith('_scan') else None
-    A = scen.make_action(w, q['kind'], tuple(q['target']), q.get('name'), q.get('os'), req_symbolic=False, cost=sc_cost)
+    if q.get('twin'):
+        # concrete cost / probability with more than two decimals (B has the 2-decimal neighbours)
+        A = scen.make_action(w, q['kind'], tuple(q['target']), q.get('name'), q.get('os'), req_symbolic=False,
+                             cost=0.104, prob=0.3333333333333333)
+    else:
+        A = scen.make_action(w, q['kind'], tuple(q['target']), q.get('name'), q.get('os'), req_symbolic=False, cost=sc_cost)
     dyn.scenario_actions(w, A)
     r = dyn.Rec()
     r.q, r.w, r.A = q, w, A
